@@ -57,6 +57,7 @@ mutual
 def specCell : View ν α → List Nat → Option Cell
   | .tensor id t, idx => some (id, ravel (lens t.shape) idx)
   | .matrix id m _ _, idx => some (id, ravel [m.rows, m.columns] idx)
+  | .matrixOf s _ _, idx => s.specCell idx
   | .range s rs, idx => s.specCell (rangeCoords idx rs)
   | .mask s ms, idx => s.specCell (maskCoords idx ms)
   | .index s p, idx => s.specCell (selectCoords p idx)
@@ -135,6 +136,7 @@ def WF : View ν α → Prop
     ValidShape t.shape ∧ t.strides = computeStrides t.shape ∧ t.data.length = elements t.shape ∧
     t.data.length ≤ usizeMax
   | .matrix _ m r c => m.Inv ∧ r ≠ c ∧ m.data.length ≤ usizeMax
+  | .matrixOf s r c => s.WF ∧ s.shape.length = 2 ∧ r ≠ c
   | .range s rs => s.WF ∧ RangesOK s.shape rs
   | .mask s ms => s.WF ∧ MasksOK s.shape ms
   | .index s p => s.WF ∧ ProvidedOK s.shape p
